@@ -16,8 +16,8 @@ RULE = (
     "non-trivial = the call reached the function body; distinct = (function, variant, canonical circuit, parameters)"
 )
 BUDGET = {
-    "quick": {"workers": 16, "cases": 170, "secs": 50, "min_cases": 1500},
-    "thorough": {"workers": 16, "rounds": 4, "cases": 600, "secs": 260, "min_cases": 15000},
+    "quick": {"workers": 16, "cases": 1000, "secs": 60, "min_cases": 8000},
+    "thorough": {"workers": 16, "rounds": 4, "cases": 2600, "secs": 420, "min_cases": 83200},
 }
 ANCHORS = ["tx:strip_io", "circuit:Circuit.copy", "io:circuit_to_verilog", "tx:sensitization_transform", "tx:limit_fanin", "tx:limit_fanout", "tx:acyclic_unroll", "tx:insert_registers"]
 
